@@ -45,13 +45,20 @@ NoProof == {"didnuts.NetworkDocumentValidator", "didnuts.ManagedDocumentValidato
 \* protobuf messages without nested messages / repeated fields
 ProtoFlat == {"v2.State", "v2.TransactionRangeQuery", "v2.TransactionPayloadQuery", "v2.TransactionPayload"}
 
+\* position classes that do not occur in the valid instances of an entry point
+NoPos == {<<"dag.ParseTransaction", "top">>, <<"dag.ParseTransaction", "nested">>, <<"dag.ParseTransaction", "array">>,
+          <<"dpop.Parse", "nested">>, <<"dpop.Parse", "array">>, <<"didjwk.Resolve", "nested">>,
+          <<"v2.Diagnostics", "nested">>, <<"v2.Gossip", "nested">>, <<"v2.TransactionListQuery", "nested">>,
+          <<"v2.TransactionSet", "array">>, <<"iam.AuthorizeResponse", "proof">>, <<"pe.PresentationSubmission", "proof">>}
+
 MCApplicable(ep, op, pos) ==
     IF op = "random"
-    THEN pos = "any" /\ Kind[ep] \in {"json", "jose"}
+    THEN pos = "any" /\ Kind[ep] \in {"json", "jose", "proto", "binary"}
     ELSE /\ op \in KindOps[Kind[ep]]
          /\ pos \in KindPos[Kind[ep]]
          /\ ~(pos = "proof" /\ ep \in NoProof)
          /\ ~(pos \in {"nested", "array"} /\ ep \in ProtoFlat)
+         /\ (op # "unusual" => <<ep, pos>> \notin NoPos)
 
 MCStateful(ep) == ep \in {"v2.Gossip", "v2.State", "v2.TransactionListQuery", "v2.TransactionRangeQuery", "v2.TransactionPayloadQuery",
                           "v2.TransactionSet", "v2.TransactionList", "v2.TransactionPayload", "v2.Diagnostics",
